@@ -125,6 +125,14 @@ Section C03.
     by rewrite kern_formula in v2; rewrite (s_scores (W:=W)).
   Qed.
 
+  Theorem sample_scores_explicit : centred n m env -> fit_oracle n m p k env true ->
+    eval_mx env (transform_prog n m p k true (eX n m))
+    = Vs *m diag_mx (\row_i (if tol < S i 0 then Num.sqrt (S i 0) else 0)).
+  Proof.
+    move=> hc ho; rewrite (sample_scores hc ho) /dmap; congr (_ *m diag_mx _).
+    by apply/rowP=> i; rewrite !mxE.
+  Qed.
+
   Theorem feature_scores :
     centred n m env -> fit_oracle n m p k env false -> regressor_contract n m p env ->
     let T := eval_mx env (transform_prog n m p k false (eX n m)) in
@@ -195,6 +203,25 @@ Section C03.
       rewrite (mulmxA (U *m _)) (mulmxA (Vs *m _)) -(mulmxA U) -(mulmxA Vs) !dmap_mul.
       exact: routes_unique.
     Qed.
+
+    (* the same statements on the fitted estimator's methods, centred training data *)
+    Hypothesis hcen : centred n m env.
+    Let Tp sp := transform_prog n m p k sp (eX n m).
+
+    Theorem route_reconstruction :
+      eval_mx env (inverse_prog n m k false (Tp false))
+      = eval_mx env (inverse_prog n m k true (Tp true)).
+    Proof. by rewrite !inverse_formula !transform_centred // -/X reconstruction_equal. Qed.
+
+    Theorem route_predictions :
+      eval_mx env (predict_t_prog n m p k false (Tp false))
+      = eval_mx env (predict_t_prog n m p k true (Tp true)).
+    Proof. by rewrite !predict_t_formula !transform_centred // -/X predictions_equal. Qed.
+
+    Theorem route_gram :
+      eval_mx env (Tp false) *m (eval_mx env (Tp false))^T
+      = eval_mx env (Tp true) *m (eval_mx env (Tp true))^T.
+    Proof. by rewrite !transform_centred // -/X gram_equal. Qed.
   End Routes.
 
   (* ---- reported spectra ------------------------------------------------------------------ *)
